@@ -8,6 +8,8 @@ mod gen;
 mod langid;
 mod locale;
 mod corpus;
+mod serde_suite;
+mod c20;
 
 use common::*;
 
@@ -41,6 +43,8 @@ fn main() {
                 "likely" => likely::run(&mut out, tier, &mut rng),
                 "langid" => langid::run(&mut out, tier, &mut rng),
                 "locale" => locale::run(&mut out, tier, &mut rng),
+                "serde" => serde_suite::run(&mut out, tier, &mut rng),
+                "c20" => c20::run(&mut out, tier, &mut rng),
                 _ => {
                     eprintln!("unknown suite {}", suite);
                     std::process::exit(2);
@@ -118,6 +122,11 @@ fn replay_one(out: &mut Out, op: &str, a: &[Vec<u8>]) {
         "loc_cmp" => out.case(op, &refs, || locale::loc_cmp(a0, a1)),
         "loc_hist" => out.case(op, &refs, || locale::loc_hist(&refs)),
         "big" => out.case(op, &refs, || locale::big(a0, a1)),
+        "facade" => out.case(op, &refs, || c20::facade(a0)),
+        "serde_ser" => out.case(op, &refs, || serde_suite::serde_ser(a0)),
+        "serde_de" => out.case(op, &refs, || serde_suite::serde_de(a0)),
+        "serde_roundtrip" => out.case(op, &refs, || serde_suite::serde_roundtrip(a0)),
+        "serde_nonstring" => out.case(op, &refs, || serde_suite::serde_nonstring(a0)),
         "loc_meta" => out.case(op, &refs, || locale::loc_meta(a0, a1)),
         "li_meta" => out.case(op, &refs, || locale::li_meta(a0, a1)),
         "maximize" => out.case(op, &refs, || likely::maximize(a0, a1, a2)),
